@@ -8,17 +8,22 @@ import numpy as np
 from . import cmp
 from . import methods as M
 from . import traj
+from . import looptbl
 from .common import Disagreement, drive, ROOT
 
 PROP_MODULE = 'PbVerif.Props.C01'
-GEN_TABLES = ('Registry',)
+GEN_TABLES = ('Registry', 'Loops')
 RULE = ('cases = (method, dimension, data kind in {noise+peaks, large offset, tiny scale, negative, integer-valued, float32, int64, '
         'row/column/stack shapes, unsorted x}, size, output_dtype, parameter variation); each returning call is checked for baseline '
         'shape, dtype, order (against the sorted run), per-point parameter shapes, tol_history length/stop rule (trajectory replay '
-        'through the Lean loop skeleton) and finiteness; non-trivial = the call returned; distinct by canonical tuple')
+        'through the Lean loop skeleton) and finiteness; loop table (Gen/Loops, read from the source by AST): every translated row is run by the '
+        'Lean interpreter on the real difference stream of its method for a (max_iter, tol) grid incl. 0 and 1 and compared with the real call '
+        'observed by LoopSpy (allocation, set of written indices, returned slice, never-written entries), two-level rows on their own records; '
+        'non-trivial = the call returned; distinct by canonical tuple')
 ASSUMPTIONS = [
     'that each numerical core preserves the length of its input and returns finite numbers on finite noisy data is decided on the explored inputs only (partial)',
-    'golden/loop_budget.json records, per method, how many iterations max_iter allows (derived once from the unchanged tree)',
+    'golden/loop_budget.json records, per method, how many iterations max_iter allows (derived once from the unchanged tree); since the loop table is translated from the source it is only cross-checked (theorem loops_budget_code)',
+    'translate_loops.py reads the loop fragment (allocation, range, writes, break tests, final slice) from the AST; everything else in a loop body is opaque numeric work, checked not to touch tol_history, the loop variable or tol; LoopSpy observes the real allocation / written set / returned slice on every replayed call',
 ]
 
 
@@ -306,6 +311,8 @@ def correspond(ctx):
         dis.append(Disagreement('c01.fuzz', f'fuzz:{spec["steps"][-1]["method"]}',
                                 f'history on one fitter (x {"not given" if spec["mode"] == "none" else "given"}): {hist.describe(spec)[:700]} — call {f[0] + 1}: {f[2]}',
                                 {'kind': 'fuzz', 'spec': spec}, True))
+    # the loops AS TRANSLATED from the source (Gen/Loops): table cross-check, then every row run on real trajectories / records
+    dis += looptbl.correspond(ctx, traj.load_golden_file(), rng)
     return dis
 
 
@@ -344,7 +351,9 @@ def replay(ctx, data):
             return f'{r["method"]}: non-finite baseline for finite noisy data'
         pr = well_formed(r['method'], r['two_d'], Y, b, p, None, r.get('max_iter'), None, None)
         return pr[0] if pr else None
-    if r.get('kind') in ('replay', 'order'):
+    if r.get('kind') == 'looptbl':
+        return looptbl.replay(ctx, r)
+    if r.get('kind') in ('replay', 'order', 'translate', 'table', 'rowok', 'rowshape', 'budget'):
         return None
     rng = np.random.default_rng(0)
     two_d = r['two_d']
